@@ -86,9 +86,9 @@ Definition uo_eqb (a b : url_obs) : bool :=
    w >= 50: a missing oracle answer (counts as a disagreement) *)
 Definition agree_res {A} (eqb : A -> A -> bool) (m : mres A) (o : res A) : bool :=
   match m, o with
+  | _, Raise (OtherExn 7) => true          (* the harness did not make this observation *)
   | MOk a, Ok b => eqb a b
   | MRaise e, Raise f => exn_eqb e f
-  | _, Raise (OtherExn 7) => true          (* the harness did not make this observation *)
   | MOut w, _ => w <? 50
   | _, _ => false
   end.
